@@ -111,12 +111,12 @@ impl Scenario for C16 {
             run.idle_at.unwrap() / MS
           ),
         });
-      } else if run.ticks.iter().filter(|s| **s > t.seq_out).count() > run.ticker_instances {
+      } else if run.ticks.iter().filter(|s| **s > t.seq_out).count() > 0 {
         violation = Some(Violation {
           rule: "c16.ticked-after-terminal".into(),
           site: site.clone(),
           detail: format!(
-            "`{}`: {} interval tick(s) were produced after the subscriber's terminal had been delivered (at most one per periodic source is what \"retires within one period\" allows)",
+            "`{}`: {} interval tick(s) were produced after the subscriber's terminal had been delivered (a repeating source asks whether its subscriber has finished before each emission: its task may linger for one period, it does not emit any more)",
             run.trace.trim(),
             run.ticks.iter().filter(|s| **s > t.seq_out).count()
           ),
@@ -124,7 +124,7 @@ impl Scenario for C16 {
       } else {
         let late_pulls = run.pulls.iter().filter(|s| **s > t.seq_out).count();
         let late_polls = run.polls.iter().filter(|s| **s > t.seq_out).count();
-        if late_pulls > 1 {
+        if late_pulls > 0 {
           violation = Some(Violation {
             rule: "c16.iterator-pulled-after-terminal".into(),
             site: site.clone(),
